@@ -48,6 +48,23 @@ BoundsOK ==
            /\ Chk("agg_lower", Near(o.alo, 1000, AggLower(T.p, T.xs, ru), 1))
            /\ Chk("agg_upper", Near(o.ahi, 1000, AggUpper(T.p, T.xs, rl), 1))
 
+\* kind "known": one group with a reporting unit (w, y, z), an unexpected unit (margin mu, two-party votes wu) and a
+\* nonreporting unit with injected draws; draws 2 and 3 are identical and not below draw 1, so the quantile levels 0 and
+\* 2/3 (B = 3, alpha = 0.9) are order statistics.  Bounds logged in 1/10000.
+KnownOK ==
+  T.kind = "known" =>
+    LET Kyz == T.w * T.y * T.z + T.mu
+        Kz  == T.w * T.z + T.wu
+        d1  == KnownDraw(Kyz, Kz, T.e1[1], T.e2[1], T.e3[1], T.e4[1])
+        d2  == KnownDraw(Kyz, Kz, T.e1[2], T.e2[2], T.e3[2], T.e4[2])
+        pr  == KnownPred(Kyz, Kz, T.yz, T.zp)
+        lo  == RMin(RNorm(RSub(pr, d2)), RNorm(RSub(pr, Thousandth)))
+        hi  == RMax(RNorm(RSub(pr, d1)), RAdd(pr, Thousandth))
+    IN  /\ Chk("known_scenario_well_formed", RLe(d1, d2) /\ Kz + T.zp > 0)
+        /\ Chk("known_pred", Near(T.obs.pred, 10000, pr, 1))
+        /\ Chk("known_lower", Near(T.obs.lower, 10000, lo, 1))
+        /\ Chk("known_upper", Near(T.obs.upper, 10000, hi, 1))
+
 InSeq(x, s) == \E i \in DOMAIN s : s[i] = x
 ClientOK ==
   T.kind = "client" =>
